@@ -106,7 +106,9 @@ pub struct Enum { pub name: String }
 pub struct Interface { pub name: String }
 pub struct Union { pub name: String, pub possible_types: StrList }
 pub struct Subscription { pub name: String }
-pub struct SchemaInner { pub types: StrEntryMap<Type> }
+pub struct Registry { pub query_type: String, pub mutation_type: Option<String>, pub subscription_type: Option<String> }
+pub struct SchemaEnv { pub registry: Registry }
+pub struct SchemaInner { pub env: SchemaEnv, pub types: StrEntryMap<Type> }
 pub struct SchemaError(pub String);
 #[verifier::external_body]
 pub fn schema_error() -> (r: SchemaError) { unimplemented!() }
@@ -131,11 +133,21 @@ def check_unions_unit(kf):
     u.prelude('string_eq')
     u.extract_type('src/dynamic/type.rs', ['enum Type'])
     u.trusted(CHECK_SHIMS, 'schema / map shims')
-    u.shim_conformance('src/dynamic/schema.rs', ['struct SchemaInner'], [('types', 'IndexMap<String, Type>')])
+    u.shim_conformance('src/dynamic/schema.rs', ['struct SchemaInner'], [('env', 'SchemaEnv'), ('types', 'IndexMap<String, Type>')])
+    u.shim_conformance('src/registry/mod.rs', ['struct Registry'], [('query_type', 'String'), ('mutation_type', 'Option<String>'), ('subscription_type', 'Option<String>')])
     u.shim_conformance('src/dynamic/union.rs', ['struct Union'], [('name', 'String'), ('possible_types', 'IndexSet<String>')])
     u.spec(UNION_SPEC, 'union member rule')
     u.extract_fn('src/dynamic/type.rs', ['impl Type', 'fn as_object'], wrap_impl='Type', sig_rewrites=[ReSub(r'pub\(crate\) fn', 'fn')],
                  ensures=['match *self { Type::Object(o) => r == Some(&o), _ => r is None }'])
+    # the sibling accessors too, so that a check rewritten in terms of them is still decided (not rejected as an unknown method)
+    for acc, var in [('as_interface', 'Interface'), ('as_input_object', 'InputObject')]:
+        u.extract_fn('src/dynamic/type.rs', ['impl Type', f'fn {acc}'], wrap_impl='Type', sig_rewrites=[ReSub(r'pub\(crate\) fn', 'fn')],
+                     ensures=[f'match *self {{ Type::{var}(o) => r == Some(&o), _ => r is None }}'])
+    # GraphQL spec IsOutputType / IsInputType on named types (Upload is the crate's input-only scalar)
+    u.extract_fn('src/dynamic/type.rs', ['impl Type', 'fn is_output_type'], wrap_impl='Type', sig_rewrites=[ReSub(r'pub\(crate\) fn', 'fn')],
+                 ensures=['r == (*self is Scalar || *self is Object || *self is Interface || *self is Union || *self is Enum)   // every field has an OUTPUT type'])
+    u.extract_fn('src/dynamic/type.rs', ['impl Type', 'fn is_input_type'], wrap_impl='Type', sig_rewrites=[ReSub(r'pub\(crate\) fn', 'fn')],
+                 ensures=['r == (*self is Scalar || *self is Enum || *self is InputObject || *self is Upload)   // every argument has an INPUT type'])
     es = 'self.types.entries@'
     u.extract_fn(C, ['impl SchemaInner', 'fn check_unions'], wrap_impl='SchemaInner',
                  rewrites=[MacroCall('format', 'schema_error()', count=1), Sub('schema_error() .into()', 'schema_error()', rule='R-msg'),
@@ -150,6 +162,24 @@ def check_unions_unit(kf):
                                 head='proof { assert(*type_name == union.possible_types.items@[it2.index@ as int]); }')},
                  inserts=[('before', 'return Err(schema_error());', f'proof {{ assert(bad_member({es}, *union, it2.index@ as int)); assert(union_bad({es}, it.index@ as int)); }}')],
                  attrs=['#[verifier::loop_isolation(false)]'])
+    # root types: "root types exist and are objects" (existence itself is check_types_exists, not under contract)
+    class Matches(Sub):
+        pass
+    from vx.unit import MacroCall as _MC
+    u.extract_fn(C, ['impl SchemaInner', 'fn check_root_types'], wrap_impl='SchemaInner',
+                 rewrites=[Sub('"The query root must be an object".into()', 'schema_error()', rule='R-msg'),
+                           Sub('"The mutation root must be an object".into()', 'schema_error()', rule='R-msg'),
+                           Sub('"The subscription root must be a subscription object".into()', 'schema_error()', rule='R-msg'),
+                           Sub('!matches!(ty, Type::Object(_))', '!(match ty { Type::Object(_) => true, _ => false })', count=2, rule='R-matches', why='matches! is its defining match'),
+                           Sub('!matches!(ty, Type::Subscription(_))', '!(match ty { Type::Subscription(_) => true, _ => false })', count=1, rule='R-matches'),
+                           LetChain(count=3),
+                           Sub('self.types.get(&self.env.registry.query_type)', 'self.types.get(self.env.registry.query_type.as_str())', rule='R-ty'),
+                           Sub('self.types.get(mutation_type)', 'self.types.get(mutation_type.as_str())', rule='R-ty'),
+                           Sub('self.types.get(subscription_type)', 'self.types.get(subscription_type.as_str())', rule='R-ty')],
+                 ensures=[f'''r is Err <==> (
+            (type_of({es}, self.env.registry.query_type@) is Some && !(type_of({es}, self.env.registry.query_type@)->Some_0 is Object))
+            || (self.env.registry.mutation_type is Some && type_of({es}, self.env.registry.mutation_type->Some_0@) is Some && !(type_of({es}, self.env.registry.mutation_type->Some_0@)->Some_0 is Object))
+            || (self.env.registry.subscription_type is Some && type_of({es}, self.env.registry.subscription_type->Some_0@) is Some && !(type_of({es}, self.env.registry.subscription_type->Some_0@)->Some_0 is Subscription)))   // a registered root type of the wrong kind, and nothing else, is rejected here'''])
     u.assume('IndexMap / IndexSet represented by their entry lists (R-ty); get() returns the entry of that key (assumed contract on indexmap)')
     u.assume('members that are not registered at all are reported by another check (check_types_exists family, not under contract here)')
     u.search_case('check.rs', 'c33_build')
